@@ -1,7 +1,7 @@
 """C06 - the seven CFDP file-directive PDUs: exact encoding, round trip, no silent truncation."""
 from __future__ import annotations
 
-from spverif.core.util import attempt, exc_sig, rand_uint
+from spverif.core.util import attempt, exc_sig, rand_uint, hist_len
 from spverif.ref import cfdp as R
 from . import _cfdp as C
 
@@ -145,7 +145,7 @@ def k_conf_reuse(ctx, kind, seed):
     case = {"k": "conf_reuse", "kind": kind, "seed": seed}
     ctx.case(f"conf_reuse/{kind}", (kind, seed), sample=case)
     trail = []
-    for rnd in range(r.randrange(2, 5)):
+    for rnd in range(hist_len(r, 2, 5)):
         if rnd:
             how = r.choice(("int", "bytes"))
             conv = (lambda v, w: v) if how == "int" else (lambda v, w: v.to_bytes(w, "big"))
